@@ -246,7 +246,7 @@ def int_cons(mod, t):
             lb = c.lb if lb is None else max(lb, c.lb)
         if c.ub is not None:
             ub = c.ub if ub is None else min(ub, c.ub)
-    return Cons(lb, ub, chain[0].ext)
+    return Cons(lb, ub, chain[0].ext, chain[0].text if len(chain) == 1 else None)
 
 
 def size_cons(mod, t):
